@@ -556,6 +556,7 @@ fn do_env(op: &EnvOp, w: &Shared, slots: &mut Vec<Slot>, reg: &mut Registry, spa
                     // lose what is in flight (possibly mid-frame), then EOF
                     let keep = g.dirs[1 - ep].inflight.len() / 2;
                     g.dirs[1 - ep].inflight.truncate(keep);
+                    g.dirs[1 - ep].discard = true;
                     g.dirs[1 - ep].eof = true;
                     wakers.extend(g.dirs[1 - ep].rwaker.take());
                 }
